@@ -130,6 +130,8 @@ type Project struct {
 	Aliases     []Alias      `json:"aliases,omitempty"`
 	// ControllerGlobs as written in the config (relative to the project root)
 	Globs []string `json:"globs"`
+	// PartialGlobs: the globs select only some files of a controller package
+	PartialGlobs bool `json:"partial_globs,omitempty"`
 	// Extensions: names of routes-template extension hooks the configuration fills with a comment line
 	Extensions []string `json:"extensions,omitempty"`
 	// ExtRev is written into the extension files' content (same relative paths, other content)
@@ -292,7 +294,7 @@ func (t TypeRef) GoString(fromPkg string) string {
 		return s + t.Prim
 	default:
 		if t.Pkg != "" && t.Pkg != fromPkg {
-			return s + t.Pkg + "." + t.Name
+			return s + PkgName(t.Pkg) + "." + t.Name
 		}
 		return s + t.Name
 	}
@@ -315,3 +317,14 @@ func (p *Project) HookPath() string {
 func (p *Project) String() string {
 	return fmt.Sprintf("project(seed=%d,%s,%d ctl)", p.Seed, p.Profile, len(p.Controllers))
 }
+
+// PkgName is the Go package name of a package given by its directory (relative to the module root).
+func PkgName(pkg string) string {
+	if i := strings.LastIndex(pkg, "/"); i >= 0 {
+		return pkg[i+1:]
+	}
+	return pkg
+}
+
+// isMdl: model packages carry "mdl" in their directory's base name (they never declare controllers).
+func isMdl(pkg string) bool { return strings.Contains(PkgName(pkg), "mdl") }
